@@ -1,5 +1,6 @@
 """C07 - unsafe content never reaches executed code (structural clauses R1..R7 of DESIGN 5/C07)."""
 import ast
+import re
 
 from .. import cfg as cfgmod
 from ..fde import FDE, Obj
@@ -7,6 +8,7 @@ from ..mutate import Mutant, in_func, delete_stmt, in_module
 from ..report import AnalysisError
 from ..srcmodel import unparse, norm, walk_no_nested, calls_in
 from . import mergerules as mr
+from . import tr
 from .common import (cfg_of, node_obj, is_method_call, F3, product_dicts, fde_guard, inside_with_calling,
                      facts_at, find_stmt_node, derives_from, get_kw, name_defs, recv_of)
 
@@ -36,8 +38,33 @@ R1_EXEMPT = {
 }
 
 
+NO_INLINE = {'_require_safe', 'import_name', '_resolve_args', '_patch_access_to_globals', 'get_eval_symbols'}
+
+
 def _is_gate(call):
     return is_method_call(call, recv='self', member='_require_safe', ayns=True)
+
+
+def _gate_ev(e):
+    return tr.is_call(e, attr='_require_safe') and e.callee == 'self.ayns._require_safe'
+
+
+def _derived_from_target(text):
+    return text.startswith('self._func') or text.startswith('import_name(') or '(self._func' in text and text.startswith('import_name')
+
+
+def _sink_ev(e):
+    """execution sink: an import / eval primitive, or a call (or partial) of the node's target"""
+    if e.kind != 'call':
+        return None
+    c = e.callee or ''
+    if c in SINK_NAMES or c in SINK_ATTRS:
+        return c
+    if _derived_from_target(c):
+        return 'call of the node target'
+    if c in ('partial', 'functools.partial') and e.args and _derived_from_target(e.args[0].text):
+        return 'partial over the node target'
+    return None
 
 
 def _sink_kind(call, tainted):
@@ -45,97 +72,10 @@ def _sink_kind(call, tainted):
     if isinstance(f, ast.Name):
         if f.id in SINK_NAMES:
             return f.id
-        if f.id in tainted:
-            return 'call of node target ' + f.id
-        if f.id == 'partial' and call.args and isinstance(call.args[0], ast.Name) and call.args[0].id in tainted:
-            return 'partial over node target'
     t = unparse(f)
-    if t in SINK_ATTRS or t == 'functools.partial' and call.args and isinstance(call.args[0], ast.Name) and call.args[0].id in tainted:
+    if t in SINK_ATTRS:
         return t
-    if isinstance(f, ast.Attribute) and unparse(f) == 'self._func':
-        return 'call of node target self._func'
     return None
-
-
-def _tainted_names(repo, fi):
-    """local names bound from self._func, import_name(...), or unpacked from a helper that returns the target"""
-    out = set()
-    for n in walk_no_nested(fi.node):
-        if isinstance(n, ast.Assign) and isinstance(n.value, ast.Call) and isinstance(n.value.func, ast.Attribute) and norm(n.value.func.value) in ('self', 'self.ayns'):
-            for t in repo.resolve_call(n.value, fi):
-                if t is not fi and t.cls is not None and t.name != 'on_evaluate_impl':
-                    rets = [s for s in walk_no_nested(t.node) if isinstance(s, ast.Return) and s.value is not None]
-                    inner = _tainted_names_local(t)
-                    if any(isinstance(x, ast.Name) and x.id in inner for r in rets for x in ast.walk(r.value)):
-                        for tg in n.targets:
-                            for x in ast.walk(tg):
-                                if isinstance(x, ast.Name):
-                                    out.add(x.id)
-    return out | _tainted_names_local(fi, out)
-
-
-def _tainted_names_local(fi, seed=()):
-    out = set(seed)
-    changed = True
-    while changed:
-        changed = False
-        for n in walk_no_nested(fi.node):
-            if isinstance(n, ast.Assign) and len(n.targets) == 1 and isinstance(n.targets[0], ast.Name):
-                v = n.value
-                src = unparse(v)
-                hit = src == 'self._func' or (isinstance(v, ast.Call) and isinstance(v.func, ast.Name) and v.func.id == 'import_name') \
-                    or (isinstance(v, ast.Name) and v.id in out)
-                if hit and n.targets[0].id not in out:
-                    out.add(n.targets[0].id)
-                    changed = True
-    return out
-
-
-def _helper_summary(repo, fi, depth=0, _stack=None):
-    """(ungated_sinks, acts_as_gate, returns_tainted) for a helper reachable from on_evaluate_impl.
-    ungated_sinks: execution sinks inside the helper (or deeper) that its own gate does not dominate;
-    acts_as_gate: a gate call is passed on every path to a normal exit of the helper;
-    returns_tainted: a return value derives from the node target."""
-    _stack = _stack if _stack is not None else []
-    if fi.qualname in _stack or depth > 3:
-        return [], False, False
-    _stack = _stack + [fi.qualname]
-    g = cfg_of(fi)
-    tainted = _tainted_names(repo, fi)
-    is_gate = _gate_pred(repo, fi)
-    seen, IN = cfgmod.must_have_seen(g, is_gate)
-    ungated = []
-    for n in g.stmt_nodes():
-        for c in n.calls():
-            kind = _sink_kind(c, tainted)
-            if kind is None:
-                for t in repo.resolve_call(c, fi):
-                    if t.qualname in R1_EXEMPT or t.name == 'on_evaluate_impl' or t is fi:
-                        continue
-                    sub_ungated, _, _ = _helper_summary(repo, t, depth + 1, _stack)
-                    if sub_ungated:
-                        kind = 'helper %s with ungated %s' % (t.qualname, sub_ungated[0][1])
-            if kind and not cfgmod.dominated_by_gate(g, n, c, is_gate, seen):
-                ungated.append((c, kind))
-    exit_in = IN.get(g.exit.id)
-    acts = exit_in is not None and 'gate' in exit_in
-    rets = [s for s in walk_no_nested(fi.node) if isinstance(s, ast.Return) and s.value is not None]
-    rt = any(isinstance(x, ast.Name) and x.id in tainted for r in rets for x in ast.walk(r.value))
-    return ungated, acts, rt
-
-
-def _gate_pred(repo, fi):
-    """gate = self.ayns._require_safe(...) or a call of a helper on self that passes the gate on all its normal exits"""
-    def pred(call):
-        if _is_gate(call):
-            return True
-        if isinstance(call.func, ast.Attribute) and norm(call.func.value) in ('self', 'self.ayns') and call.func.attr not in ('_require_safe', 'on_evaluate_impl'):
-            for t in repo.resolve_call(call, fi):
-                if t is not fi and t.cls is not None and not t.is_property:
-                    if _helper_summary(repo, t, 1, [fi.qualname])[1]:
-                        return True
-        return False
-    return pred
 
 
 def r1(repo, run):
@@ -143,55 +83,51 @@ def r1(repo, run):
     if not impls:
         raise AnalysisError('no ayns.on_evaluate_impl found')
     gate_def = repo.func('ConfigNode.ayns._require_safe')
+    covered = set()
+    seen_sinks = set()
     for fi in impls:
-        g = cfg_of(fi)
-        tainted = _tainted_names(repo, fi)
-        is_gate = _gate_pred(repo, fi)
-        seen, _ = cfgmod.must_have_seen(g, is_gate)
-        for n in g.stmt_nodes():
-            for c in n.calls():
-                kind = _sink_kind(c, tainted)
-                if kind is None:
-                    for t in repo.resolve_call(c, fi):
-                        if t.qualname in R1_EXEMPT or t.name == 'on_evaluate_impl':
-                            continue
-                        ungated, acts, _ = _helper_summary(repo, t, 1, [fi.qualname])
-                        if ungated:
-                            kind = 'helper %s reaching an execution primitive (%s) that its own gate does not dominate' % (t.qualname, ungated[0][1])
-                        elif acts and _helper_has_sink(repo, t):
-                            run.ok('C07.R1', (fi.file, c.lineno, fi.qualname), '%s [helper with its own gate before its sinks]' % unparse(c)[:80], 'gate inside %s dominates its sinks' % t.qualname)
+        r = repo.resolve(fi.cls.name, '_require_safe', ayns=True)
+        paths = tr.paths_of(repo, fi, no_inline=NO_INLINE)
+        bad = {}
+        good = {}
+        for p in paths:
+            for i, e in enumerate(p.events):
+                if e.kind == 'enter':
+                    covered.add(e.callee)
+                kind = _sink_ev(e)
                 if kind is None:
                     continue
-                if cfgmod.dominated_by_gate(g, n, c, is_gate, seen):
-                    r = repo.resolve(fi.cls.name, '_require_safe', ayns=True)
-                    if r is not gate_def:
-                        run.violation('C07.R1', fi, unparse(c), 'gate resolves to %s, not ConfigNode.ayns._require_safe' % (r.qualname if r else None), node=c)
-                    else:
-                        run.ok('C07.R1', (fi.file, c.lineno, fi.qualname), '%s [%s]' % (unparse(c)[:80], kind), 'dominated by self.ayns._require_safe')
+                key = (e.fn, norm(e.node) if e.node is not None else e.callee)
+                if tr.any_before(p, i, _gate_ev):
+                    good.setdefault(key, (e, kind))
                 else:
-                    run.violation('C07.R1', fi, unparse(c),
-                                  'execution sink (%s) reachable on a path from the entry of %s without a preceding self.ayns._require_safe(path)' % (kind, fi.qualname), node=c)
-    # inheritance: every subclass of a class whose on_evaluate_impl has sinks resolves to a checked definition
+                    bad.setdefault(key, (e, kind, p))
+        for key, (e, kind, p) in bad.items():
+            run.violation('C07.R1', fi, key[1][:200],
+                          'execution sink (%s) is reached on a path (%s) on which self.ayns._require_safe(path) has not been called before' % (kind, tr.describe(p) or 'unconditional'), node=e.node)
+        for key, (e, kind) in good.items():
+            if key in bad:
+                continue
+            seen_sinks.add(key)
+            if r is not gate_def:
+                run.violation('C07.R1', fi, key[1][:200], 'gate resolves to %s, not ConfigNode.ayns._require_safe' % (r.qualname if r else None), node=e.node)
+            else:
+                run.ok('C07.R1', tr.where(fi, e), '%s [%s]%s' % (key[1][:80], kind, (' in helper ' + key[0]) if key[0] != fi.qualname else ''), 'self.ayns._require_safe precedes on every path')
     checked = {id(f.node) for f in impls}
     for cname in repo.subclasses('ConfigNode'):
         t = repo.resolve(cname, 'on_evaluate_impl', ayns=True)
         if t is None or id(t.node) not in checked:
             raise AnalysisError('class %s resolves on_evaluate_impl outside the checked set' % cname)
     fstr = repo.resolve('FStrNode', 'on_evaluate_impl', ayns=True)
-    if fstr is None or fstr.cls.name != 'EvalNode':
-        run.info('C07.R1', fstr or 'FStrNode', 'FStrNode.on_evaluate_impl', 'overridden; checked as its own definition')
-    else:
-        run.ok('C07.R1', fstr, 'FStrNode inherits EvalNode.ayns.on_evaluate_impl', 'covered through inheritance')
-    run.floor('C07.R1', 6, '(sinks in Call/Bind/Eval/Import + inheritance)')
+    run.ok('C07.R1', fstr, 'FStrNode evaluates through %s' % fstr.qualname, 'covered')
+    if len(seen_sinks) < 6:
+        raise AnalysisError('C07.R1: only %d gated sinks found in Call/Bind/Eval/Import evaluation (expected >= 6)' % len(seen_sinks))
+    run.floors['C07.R1'] = 6
+    return covered
 
 
-def _helper_has_sink(repo, fi):
-    tainted = _tainted_names(repo, fi)
-    return any(_sink_kind(c, tainted) for c in calls_in(fi.node))
-
-
-def r1b(repo, run):
-    """package-wide inventory of execution primitives outside on_evaluate_impl"""
+def r1b(repo, run, covered=()):
+    """package-wide inventory of execution primitives outside the traced evaluation code"""
     n = 0
     for fi in repo.all_functions():
         if fi.name == 'on_evaluate_impl' and fi.ayns:
@@ -206,12 +142,10 @@ def r1b(repo, run):
                 top = top.outer
             if top.qualname in R1_EXEMPT:
                 run.ok('C07.R1b', (fi.file, c.lineno, fi.qualname), unparse(c)[:80], 'exempt: ' + R1_EXEMPT[top.qualname])
-            elif fi.cls is not None and repo.is_subclass(fi.cls.name, 'ConfigNode') and fi.outer is None and \
-                    cfgmod.dominated_by_gate(cfg_of(fi), find_stmt_node(cfg_of(fi), c), c, _gate_pred(repo, fi)):
-                run.ok('C07.R1b', (fi.file, c.lineno, fi.qualname), unparse(c)[:80], 'node-class helper: dominated by its own self.ayns._require_safe')
+            elif top.qualname in covered:
+                run.ok('C07.R1b', (fi.file, c.lineno, fi.qualname), unparse(c)[:80], 'helper of a node evaluation: checked in context by R1')
             else:
-                run.violation('C07.R1b', fi, unparse(c), 'execution primitive %s used outside a gated on_evaluate_impl and outside the exemption table' % k, node=c)
-    # module-level statements
+                run.violation('C07.R1b', fi, unparse(c), 'execution primitive %s used outside a gated node evaluation and outside the exemption table' % k, node=c)
     for m in repo.modules.values():
         for s in m.tree.body:
             if isinstance(s, (ast.FunctionDef, ast.ClassDef, ast.AsyncFunctionDef)):
@@ -268,54 +202,52 @@ def r2(repo, run):
 
 def r3(repo, run):
     n = 0
-    scan = []
+    seen = set()
     for cname in repo.subclasses('FunctionNode'):
-        ci = repo.classes[cname]
-        fi0 = ci.ayns.get('on_evaluate_impl')
-        if fi0 is None or cname == 'FunctionNode':
+        fi = repo.classes[cname].ayns.get('on_evaluate_impl')
+        if fi is None or cname == 'FunctionNode':
             continue
-        todo = [fi0]
-        while todo:
-            f_ = todo.pop()
-            if f_ in scan:
-                continue
-            scan.append(f_)
-            for c in calls_in(f_.node):
-                if isinstance(c.func, ast.Attribute) and norm(c.func.value) in ('self', 'self.ayns', 'FunctionNode') and c.func.attr not in ('on_evaluate_impl', '_require_safe'):
-                    for t in repo.resolve_call(c, f_):
-                        if t.cls is not None and repo.is_subclass(t.cls.name, 'FunctionNode') and not t.is_property:
-                            todo.append(t)
-    for fi in scan:
-        for c in calls_in(fi.node):
-            evaluates_children = (is_method_call(c, member='on_evaluate_impl', ayns=True) or
-                                  is_method_call(c, member=('evaluate_node', 'evaluate')))
-            if not evaluates_children:
-                continue
-            n += 1
-            if inside_with_calling(c, 'require_all_safe'):
-                run.ok('C07.R3', (fi.file, c.lineno, fi.qualname), unparse(c)[:80], 'inside with ctx.require_all_safe(...)')
-            else:
-                run.violation('C07.R3', fi, unparse(c), 'argument children are evaluated outside `with ctx.require_all_safe(...)`', node=c)
+        ctxp = fi.params()[2]
+        for p in tr.paths_of(repo, fi, no_inline=NO_INLINE):
+            for i, e in enumerate(p.events):
+                child_eval = (tr.is_call(e, attr=('evaluate_node', 'evaluate')) and e.recv is not None and e.recv.text == ctxp) or tr.is_call(e, attr='on_evaluate')
+                if not child_eval:
+                    continue
+                key = (fi.qualname, e.fn, norm(e.node))
+                inside = any('require_all_safe(' in w for w in tr.with_stack_at(p, i))
+                if key in seen:
+                    continue
+                seen.add(key)
+                n += 1
+                if inside:
+                    run.ok('C07.R3', tr.where(fi, e), norm(e.node)[:80], 'argument children evaluated inside with ctx.require_all_safe(...)')
+                else:
+                    run.violation('C07.R3', fi, norm(e.node)[:160], 'argument children are evaluated outside `with ctx.require_all_safe(...)`', node=e.node)
     gw = repo.func('GlobalsWrapper.__getattr__')
     m = 0
-    for node in walk_no_nested(gw.node):
-        hit = None
-        if isinstance(node, ast.Subscript) and unparse(node.value) in ('self.ecfg',) and isinstance(node.ctx, ast.Load):
-            hit = node
-        elif isinstance(node, ast.Call) and isinstance(node.func, ast.Attribute) and unparse(node.func.value) in ('self.ecfg', 'self.ctx') \
-                and node.func.attr in ('evaluate_node', 'get_node', 'get', '__getitem__', 'get_or_set'):
-            hit = node
-        elif isinstance(node, ast.Call) and isinstance(node.func, ast.Name) and node.func.id == 'getattr' and node.args and unparse(node.args[0]) == 'self.ecfg':
-            hit = node
-        if hit is None:
-            continue
-        m += 1
-        if inside_with_calling(hit, 'require_all_safe'):
-            run.ok('C07.R3', (gw.file, hit.lineno, gw.qualname), unparse(hit), 'config lookup inside with self.ctx.require_all_safe(...)')
-        else:
-            run.violation('C07.R3', gw, unparse(hit), 'config value resolved as a name for evaluated code outside `with ...require_all_safe(...)`', node=hit)
+    seen = set()
+    for p in tr.paths_of(repo, gw):
+        for i, e in enumerate(p.events):
+            reads_cfg = (e.kind == 'subscr' and e.callee == 'self.ecfg') or \
+                        (tr.is_call(e, attr=('evaluate_node', 'get_node', 'get', '__getitem__', 'get_or_set')) and e.recv is not None and e.recv.text in ('self.ecfg', 'self.ctx')) or \
+                        (e.kind == 'call' and e.callee == 'getattr' and e.args and e.args[0].text == 'self.ecfg')
+            if not reads_cfg:
+                continue
+            # the value must have been produced while the strict context was open: the read is either an event inside
+            # the with, or a return whose value was computed inside it
+            stack = tr.with_stack_at(p, i)
+            inside = any('require_all_safe(' in w for w in stack)
+            key = (e.fn, norm(e.node))
+            if key in seen:
+                continue
+            seen.add(key)
+            m += 1
+            if inside:
+                run.ok('C07.R3', tr.where(gw, e), key[1][:80], 'config value resolved inside with self.ctx.require_all_safe(...)')
+            else:
+                run.violation('C07.R3', gw, key[1][:160], 'a config value is resolved as a name for evaluated code outside `with ...require_all_safe(...)`', node=e.node)
     if n < 1 or m < 1:
-        raise AnalysisError('C07.R3: expected >=1 child evaluations in Call/Bind and >=1 config lookup in GlobalsWrapper (got %d, %d)' % (n, m))
+        raise AnalysisError('C07.R3: expected >=1 child evaluation in Call/Bind and >=1 config lookup in GlobalsWrapper (got %d, %d)' % (n, m))
     # the context manager itself
     cm = repo.func('EvalContext.require_all_safe')
     if not cm.is_contextmanager:
@@ -359,171 +291,115 @@ def r3(repo, run):
 
 # ---- R4 -------------------------------------------------------------------------------------------
 STRICT = ('self._require_all_safe', 'self._eval_ctx._require_all_safe')
-CACHES = ('_eval_cache', '_eval_cache_id')
+CACHE_RE = r'\._eval_cache(_id)?(\[|\.get\(|\.pop\(|\.setdefault\()'
+STORED_RE = r'^(super\(\)|dict|Bunch)\.(__getitem__|get)\('
 
 
-def _mentions_strict(test):
-    for n in ast.walk(test):
-        if isinstance(n, ast.Attribute) and unparse(n) in STRICT:
-            return True
-    return False
-
-
-def _raises_unsafe(stmts):
-    for s in stmts:
-        for n in ast.walk(s):
-            if isinstance(n, ast.Raise) and n.exc is not None and 'UnsafeError' in unparse(n.exc):
-                return n
-    return None
-
-
-def _gate_nodes(repo, fi, g, gated_funcs):
-    """CFG test nodes that act as strict-mode gates in fi"""
+def _handout_events(p):
+    """(index, event, description) for every hand-out of an already evaluated value / every evaluation on path p"""
     out = []
-    for s in walk_no_nested(fi.node):
-        if not isinstance(s, ast.If) or not _mentions_strict(s.test):
-            continue
-        # the strict flag must be a positive conjunct of the test
-        facts = cfgmod.cond_facts(s.test, True)
-        if not any(t in STRICT and pol for t, pol in facts):
-            continue
-        kind = None
-        rz = _raises_unsafe(s.body)
-        if rz is not None:
-            # condition under which it raises: collect the facts of the enclosing ifs inside s
-            conds = set(facts)
-            for p in _ifs_between(s, rz):
-                conds |= cfgmod.cond_facts(p.test, _in_body(p, rz))
-            unsafe_cond = [c for c in conds if c[0] not in STRICT]
-            okc = any((t.endswith('.ayns.safe') and pol is False) or ('_eval_cache_unsafe' in t and ' in ' in t and pol is True) for t, pol in unsafe_cond)
-            if okc and len(unsafe_cond) == 1:
-                kind = 'raises UnsafeError when strict and %s' % (unsafe_cond,)
-        else:
-            for c in calls_in(ast.Module(body=s.body, type_ignores=[])):
-                for t in repo.resolve_call(c, fi) or _by_name(repo, c):
-                    if t.qualname in gated_funcs:
-                        kind = 'calls strict-gated %s' % t.qualname
-        if kind:
-            node = [n for n in g.nodes if n.kind == 'test' and n.ast is s.test]
-            if node:
-                out.append((node[0], kind))
+    for i, e in enumerate(p.events):
+        if e.kind == 'return' and e.depth == 0 and e.value is not None:
+            t = e.value.text
+            if re.search(CACHE_RE, t) and '_eval_cache_unsafe' not in t.replace('_eval_cache_unsafe', '') or re.search(r'\._eval_cache(_id)?\[', t):
+                out.append((i, e, 'returns cached value ' + t[:80]))
+            elif re.search(STORED_RE, t):
+                out.append((i, e, 'returns stored evaluated value ' + t[:80]))
+        if tr.is_call(e, attr='on_evaluate') and e.callee.endswith('.ayns.on_evaluate'):
+            out.append((i, e, 'evaluates ' + e.callee[:60]))
     return out
 
 
-def _by_name(repo, call):
-    if isinstance(call.func, ast.Attribute) and call.func.attr in ('get_node', 'evaluate_node'):
-        t = repo.resolve('EvalContext', call.func.attr)
-        return [t] if t else []
-    return []
-
-
-def _ifs_between(outer_if, inner):
-    out = []
-    for p in ast.walk(outer_if):
-        if isinstance(p, ast.If) and p is not outer_if and any(n is inner for n in ast.walk(p)):
-            out.append(p)
-    return out
-
-
-def _in_body(if_node, target):
-    return any(n is target for s in if_node.body for n in ast.walk(s))
-
-
-def _is_cache_read(n):
-    if isinstance(n, ast.Subscript) and isinstance(n.value, ast.Attribute) and n.value.attr in CACHES:
-        return True
-    if isinstance(n, ast.Call) and isinstance(n.func, ast.Attribute) and n.func.attr in ('get', 'pop', 'setdefault') and isinstance(n.func.value, ast.Attribute) and n.func.value.attr in CACHES:
-        return True
-    return False
-
-
-def _handouts(fi):
-    """(ast node, description) of every hand-out of an evaluated value in fi"""
-    out = []
-    for r in walk_no_nested(fi.node):
-        if isinstance(r, ast.Return) and r.value is not None:
-            if isinstance(r.value, ast.Name) and not any(_is_cache_read(n) for n in ast.walk(r.value)):
-                if derives_from(fi, r.value, _is_cache_read, depth=2):
-                    out.append((r, 'returns cached value through local %s' % r.value.id))
-            for n in ast.walk(r.value):
-                if isinstance(n, ast.Subscript) and isinstance(n.value, ast.Attribute) and n.value.attr in CACHES:
-                    out.append((r, 'returns cached value ' + unparse(n)))
-                if isinstance(n, ast.Call) and unparse(n.func) in ('super().__getitem__', 'dict.__getitem__', 'Bunch.__getitem__', 'super().get', 'dict.get'):
-                    out.append((r, 'returns stored evaluated value ' + unparse(n)))
-                if isinstance(n, ast.Call) and isinstance(n.func, ast.Attribute) and n.func.attr == 'get' and isinstance(n.func.value, ast.Attribute) and n.func.value.attr in CACHES:
-                    out.append((r, 'returns cached value ' + unparse(n)))
-    for c in calls_in(fi.node):
-        if is_method_call(c, member='on_evaluate', ayns=True):
-            out.append((c, 'evaluates ' + unparse(c)))
-    return out
+def _safe_on_path(p, i, gated):
+    strict = [pol for t, pol in p.events[i].facts if t in STRICT]
+    facts = p.events[i].facts
+    if not strict:
+        return False, 'strict mode is not consulted on this path'
+    if not any(strict):
+        return True, 'not in strict mode'
+    if any(t.endswith('.ayns.safe') and pol for t, pol in facts):
+        return True, 'strict and the source node tested safe'
+    if any('_eval_cache_unsafe' in t and ' in ' in t and pol is False for t, pol in facts):
+        return True, 'strict and the path is not recorded as unsafe'
+    for e in p.events[:i]:
+        if e.kind == 'call' and e.attr in ('get_node', 'evaluate_node') and e.recv is not None and e.recv.text in ('self._eval_ctx', 'self') and ('EvalContext.' + e.attr) in gated:
+            return True, 'strict and a gated lookup (%s) precedes' % e.callee
+    return False, 'strict mode without a safety test of the source node'
 
 
 def r4(repo, run):
-    funcs = [repo.func('EvalContext.get_node'), repo.func('EvalContext.evaluate_node'), repo.func('EvalContext.PartialChild.__getitem__')]
-    extra = [f for f in repo.all_functions(include_nested=False)
-             if f.cls is not None and f.cls.name in ('EvalContext', 'EvalContext.PartialChild') and f not in funcs]
+    fns = [f for f in repo.all_functions(include_nested=False) if f.cls is not None and f.cls.name in ('EvalContext', 'EvalContext.PartialChild')]
     gated = set()
     total = 0
-    # two rounds so that a function gated through a summarised callee is recognised
+    results = {}
     for rnd in range(2):
-        for fi in funcs + extra:
-            g = cfg_of(fi)
-            gates = _gate_nodes(repo, fi, g, gated)
-            gate_ids = {n.id for n, _ in gates}
-
-            def transfer(n, facts, gate_ids=gate_ids):
-                return facts | {'gate'} if n.id in gate_ids else facts
-            IN = cfgmod.forward_must(g, transfer)
-            hs = _handouts(fi)
-            all_ok = True
-            for node, desc in hs:
-                cn = find_stmt_node(g, node) if not isinstance(node, ast.stmt) else [x for x in g.nodes if x.ast is node][0]
-                facts = IN.get(cn.id)
-                ok = facts is not None and 'gate' in facts
-                # a hand-out reached through a call of a gated function in the same return is fine
-                if not ok and isinstance(node, ast.Return):
-                    for c in calls_in(node):
-                        for t in (repo.resolve_call(c, fi) or _by_name(repo, c)):
-                            if t.qualname in gated and desc.startswith('returns') and unparse(c) in desc:
-                                ok = True
-                if rnd == 1:
-                    total += 1
-                    if ok:
-                        run.ok('C07.R4', (fi.file, node.lineno, fi.qualname), desc, 'dominated by strict gate: ' + '; '.join(k for _, k in gates)[:160])
-                    else:
-                        run.violation('C07.R4', fi, desc, 'an already evaluated value is handed out (or a node evaluated) on a path that has not passed the strict-mode safety test', node=node)
-                all_ok = all_ok and ok
-            if hs and all_ok and gates:
+        for fi in fns:
+            try:
+                paths = tr.paths_of(repo, fi, no_inline={'evaluate_node', 'get_node', 'on_evaluate'} - {fi.name})
+            except AnalysisError:
+                continue
+            hs = []
+            for p in paths:
+                for i, e, desc in _handout_events(p):
+                    ok, why = _safe_on_path(p, i, gated)
+                    hs.append((ok, why, e, desc, p))
+            if hs and all(h[0] for h in hs):
                 gated.add(fi.qualname)
+            results[fi.qualname] = (fi, hs)
+    seen = set()
+    for q, (fi, hs) in sorted(results.items()):
+        by_desc = {}
+        for ok, why, e, desc, p in hs:
+            by_desc.setdefault(desc, []).append((ok, why, e, p))
+        for desc, items in by_desc.items():
+            total += 1
+            badi = [x for x in items if not x[0]]
+            if badi:
+                ok, why, e, p = badi[0]
+                run.violation('C07.R4', fi, desc, 'an already evaluated value is handed out (or a node evaluated) on a path [%s] where %s' % (tr.describe(p), why), node=e.node)
+            else:
+                run.ok('C07.R4', tr.where(fi, items[0][2]), desc, '; '.join(sorted({x[1] for x in items})))
     if total < 4:
         raise AnalysisError('C07.R4: expected >= 4 hand-out points in EvalContext (got %d)' % total)
     run.floors['C07.R4'] = 4
     # R4b: the unsafe-path record
     ev = repo.func('EvalContext.evaluate_node')
-    g = cfg_of(ev)
-    stores = {}
-    for n in g.stmt_nodes():
-        s = n.ast
-        if n.kind == 'stmt' and isinstance(s, ast.Assign) and isinstance(s.targets[0], ast.Subscript) and isinstance(s.targets[0].value, ast.Attribute):
-            stores.setdefault(s.targets[0].value.attr, []).append((n, s))
-    uses_record = any('_eval_cache_unsafe' in unparse(f.node) for f in funcs)
-    if uses_record:
-        if '_eval_cache_unsafe' not in stores or '_eval_cache' not in stores:
-            run.violation('C07.R4b', ev, 'store into _eval_cache_unsafe', 'strict gate reads _eval_cache_unsafe but evaluate_node never records unsafe paths')
-        else:
-            n, s = stores['_eval_cache_unsafe'][0]
-            key_u = norm(s.targets[0].slice)
-            key_c = norm(stores['_eval_cache'][0][1].targets[0].slice)
-            facts = facts_at(g, n)
-            guarded = any(t.endswith('.ayns.safe') and pol is False for t, pol in facts)
-            if key_u != key_c:
-                run.violation('C07.R4b', ev, unparse(s), 'unsafe-path record keyed by %s but the path cache by %s' % (key_u, key_c), node=s)
-            elif not guarded:
-                run.violation('C07.R4b', ev, unparse(s), 'unsafe-path record is not written under the `not <node>.ayns.safe` branch (facts: %s)' % sorted(facts), node=s)
-            else:
-                run.ok('C07.R4b', (ev.file, s.lineno, ev.qualname), unparse(s), 'recorded under not safe, same key as the path cache')
-    else:
+    uses_record = any('_eval_cache_unsafe' in unparse(f.node) for f in fns if f.name in ('get_node', '__getitem__'))
+    if not uses_record:
         run.info('C07.R4b', ev, 'no unsafe-path record in use', 'gates test the node directly')
+        return
+    paths = tr.paths_of(repo, ev, no_inline={'get_node', 'on_evaluate'})
+    n = 0
+    for p in paths:
+        stores = {}
+        for e in p.events:
+            if e.kind == 'store':
+                m = re.match(r'^self\.(_eval_cache\w*)\[(.*)\]$', e.target)
+                if m:
+                    stores.setdefault(m.group(1), []).append((m.group(2), e))
+        if '_eval_cache' not in stores:
+            continue
+        n += 1
+        node = ev.params()[1]
+        unsafe = (node + '.ayns.safe', False) in p.facts
+        safe = (node + '.ayns.safe', True) in p.facts
+        key_c = stores['_eval_cache'][0][0]
+        rec = stores.get('_eval_cache_unsafe', [])
+        if rec and rec[0][0] != key_c:
+            run.violation('C07.R4b', ev, 'self._eval_cache_unsafe[%s]' % rec[0][0][:60], 'unsafe-path record keyed differently from the path cache (%s)' % key_c[:60], node=rec[0][1].node)
+            return
+        if unsafe and not rec:
+            run.violation('C07.R4b', ev, 'store into _eval_cache_unsafe', 'an unsafe node is cached on a path [%s] without recording its path as unsafe: the strict-mode gate of get_node lets the cached value through' % tr.describe(p), node=stores['_eval_cache'][0][1].node)
+            return
+        if rec and not unsafe and safe:
+            run.violation('C07.R4b', ev, 'store into _eval_cache_unsafe', 'a safe node is recorded as unsafe', node=rec[0][1].node)
+            return
+        if rec and not unsafe and not safe:
+            run.violation('C07.R4b', ev, 'store into _eval_cache_unsafe', 'the unsafe-path record is written without testing the safety of the node on this path', node=rec[0][1].node)
+            return
+    if n < 1:
+        raise AnalysisError('C07.R4b: no path of evaluate_node stores into the path cache')
+    run.ok('C07.R4b', ev, 'self._eval_cache_unsafe[key] = node exactly on the paths where the node is not safe (%d caching paths)' % n, 'same key as the path cache')
 
 
 # ---- R5 -------------------------------------------------------------------------------------------
@@ -558,92 +434,140 @@ def r5(repo, run):
 
 
 # ---- R6 -------------------------------------------------------------------------------------------
+def _open_withs(p, i):
+    """with_enter events that are open at event index i"""
+    stack = []
+    for e in p.events[:i]:
+        if e.kind == 'with_enter':
+            stack.append(e)
+        elif e.kind == 'with_exit' and stack:
+            stack.pop()
+    return stack
+
+
 def r6(repo, run):
+    from ..fde import Yielded
     add = repo.func('Builder.add_source')
-    parses = [c for c in calls_in(add.node) if unparse(c.func) in ('yaml.parse', 'parse')]
-    if not parses:
-        raise AnalysisError('Builder.add_source no longer calls yaml.parse')
-    for c in parses:
-        w = inside_with_calling(c, 'default_safe_flag')
-        if w is None:
-            run.violation('C07.R6', add, unparse(c), 'documents are parsed outside `with ConfigNode.default_safe_flag(...)`', node=c)
-            continue
-        arg = [it.context_expr for it in w.items if isinstance(it.context_expr, ast.Call) and it.context_expr.func.attr == 'default_safe_flag'][0].args[0]
-        conj = arg.values if isinstance(arg, ast.BoolOp) and isinstance(arg.op, ast.And) else [arg]
-        if isinstance(arg, ast.BoolOp) and not isinstance(arg.op, ast.And):
-            run.violation('C07.R6', add, unparse(arg), 'source safety is not a conjunction', node=arg)
-        elif any(isinstance(v, ast.Name) and v.id == 'safe' for v in conj):
-            # `safe` may only be re-bound from None to a default
-            ok = True
-            for d in name_defs(add, 'safe'):
-                st = d[2]
-                facts = facts_at(cfg_of(add), find_stmt_node(cfg_of(add), st.value))
-                if ('safe is None', True) not in facts:
-                    ok = False
-            if ok:
-                run.ok('C07.R6', (add.file, w.lineno, add.qualname), 'with ConfigNode.default_safe_flag(%s)' % unparse(arg), 'safe parameter is a conjunct; only defaulted when None')
+    paths = tr.paths_of(repo, add)
+    n = 0
+    reported = set()
+    sp = add.params()
+    if 'safe' not in sp:
+        raise AnalysisError('Builder.add_source has no `safe` parameter')
+    for p in paths:
+        for i, e in enumerate(p.events):
+            if not (e.kind == 'call' and e.callee in ('yaml.parse', 'parse')):
+                continue
+            n += 1
+            ws = [w for w in _open_withs(p, i) if w.callee.startswith('ConfigNode.default_safe_flag(')]
+            key = None
+            if not ws:
+                key = ('parse outside default_safe_flag', 'documents are parsed outside `with ConfigNode.default_safe_flag(...)`', e)
             else:
-                run.violation('C07.R6', add, 'rebinding of safe', 'the safe parameter is overwritten before it reaches default_safe_flag')
-        else:
-            run.violation('C07.R6', add, unparse(arg), 'the `safe` parameter does not reach default_safe_flag as a conjunct', node=arg)
-    dsf = repo.func('ConfigNode.default_safe_flag')
-    # the value stored before the yield
-    ys = [s for s in walk_no_nested(dsf.node) if isinstance(s, ast.Expr) and isinstance(s.value, ast.Yield)]
-    pre = []
-    for s in walk_no_nested(dsf.node):
-        if isinstance(s, ast.Assign) and unparse(s.targets[0]) == 'ConfigNode._default_safe.value' and ys and s.lineno < ys[0].lineno:
-            pre.append(s)
-    if not pre:
-        raise AnalysisError('default_safe_flag: no store before yield')
-    st = pre[-1]
-    bad = []
-    f = FDE(repo)
-    for value in (True, False):
-        for old in (True, False):
-            r = fde_guard(lambda: f._ev(st.value, {'value': value, 'old': old}, dsf))
-            if (value is False or old is False) and r is not False:
-                bad.append((value, old, r))
-    if bad:
-        run.violation('C07.R6', dsf, unparse(st), 'installed default is %r for value=%r, enclosing=%r (must be False)' % (bad[0][2], bad[0][0], bad[0][1]), node=st)
-    else:
-        run.ok('C07.R6', (dsf.file, st.lineno, dsf.qualname), unparse(st), 'False if the requested or the enclosing default is False (4 rows)')
-    # old is read from the slot
-    n_calls = 0
-    for fi in repo.all_functions():
-        if fi.cls is None or not repo.is_subclass(fi.cls.name, 'ConfigNode'):
-            continue
-        for c in calls_in(fi.node):
-            if isinstance(c.func, ast.Attribute) and c.func.attr in ('add_source', 'add_multiple_sources'):
-                n_calls += 1
-                kw = get_kw(c, 'safe')
-                if kw is None:
-                    run.violation('C07.R6', fi, unparse(c), 'node class adds a source without passing safe=', node=c)
-                elif derives_from(fi, kw, lambda n: isinstance(n, ast.Attribute) and n.attr == 'safe' and isinstance(n.value, ast.Attribute) and n.value.attr == 'ayns'):
-                    run.ok('C07.R6', (fi.file, c.lineno, fi.qualname), unparse(c)[:90], 'safe= derives from a node ayns.safe')
+                call = ws[-1].value.ast
+                arg = call.args[0] if isinstance(call, ast.Call) and call.args else None
+                conj = arg.values if isinstance(arg, ast.BoolOp) and isinstance(arg.op, ast.And) else [arg]
+                if isinstance(arg, ast.BoolOp) and isinstance(arg.op, ast.Or):
+                    key = ('default_safe_flag(%s)' % norm(arg), 'source safety is a disjunction: a source added with safe=False is parsed as safe when the builder default is True', ws[-1])
+                elif any(isinstance(v, ast.Name) and v.id == 'safe' for v in conj):
+                    pass        # the caller's flag is a conjunct
+                elif ('safe is None', True) in p.facts:
+                    pass        # the caller passed nothing: defaulted
                 else:
-                    run.violation('C07.R6', fi, unparse(c), 'safe= argument (%s) does not derive from a node\'s ayns.safe' % unparse(kw), node=c)
+                    key = ('default_safe_flag(%s)' % norm(arg), 'on the path [%s] the `safe` argument of the caller does not reach ConfigNode.default_safe_flag as a conjunct: a source added with safe=False is stamped with %s' % (tr.describe(p), norm(arg)), ws[-1])
+            if key and key[0] not in reported:
+                reported.add(key[0])
+                run.violation('C07.R6', add, key[0], key[1], node=key[2].node)
+    if n < 1:
+        raise AnalysisError('Builder.add_source never reaches yaml.parse')
+    if not reported:
+        run.ok('C07.R6', add, 'yaml.parse(...) inside with ConfigNode.default_safe_flag(<safe and ...>)', 'the caller\'s safe flag is a conjunct on every path (%d parsing paths); defaulted only when None' % n)
+    # the context manager: value installed while the body runs
+    dsf = repo.func('ConfigNode.default_safe_flag')
+    bad = []
+    for value in (True, False):
+        for old in (True, False, 'unset'):
+            f = FDE(repo)
+            slot = Obj('slot', 'object')
+            if old != 'unset':
+                slot.f['value'] = old
+            else:
+                slot.missing.add('value')
+            f.class_objs[('ConfigNode', '_default_safe')] = slot
+            try:
+                fde_guard(lambda: f.call(dsf, value))
+                raise AnalysisError('default_safe_flag does not yield')
+            except Yielded:
+                pass
+            got = slot.f.get('value')
+            enclosing = True if old == 'unset' else old
+            if (value is False or enclosing is False) and got is not False:
+                bad.append((value, old, got))
+            if value is True and enclosing is True and got is not True:
+                bad.append((value, old, got))
+    run.table('C07.R6:default_safe_flag', 6, 'installed default over (requested, enclosing) incl. first use')
+    if bad:
+        run.violation('C07.R6', dsf, 'default installed by default_safe_flag', 'while the body runs the default is %r for requested=%r, enclosing=%r (must be False if either is False, True otherwise)' % (bad[0][2], bad[0][0], bad[0][1]), witness=bad)
+    else:
+        run.ok('C07.R6', dsf, 'default_safe_flag installs (requested and enclosing) before yielding (6 rows)')
+    # sources added by node classes carry safe= derived from a node's ayns.safe
+    n_calls = 0
+    holders = [fi for fi in repo.all_functions(include_nested=False) if fi.cls is not None and repo.is_subclass(fi.cls.name, 'ConfigNode') and
+               any(isinstance(c.func, ast.Attribute) and c.func.attr in ('add_source', 'add_multiple_sources') for c in calls_in(fi.node))]
+    entries = [f for f in repo.cha('on_preprocess_impl', ayns=True) + repo.cha('on_evaluate_impl', ayns=True) if f.cls is not None and any(h.cls is not None and repo.is_subclass(f.cls.name, h.cls.name) or f is h for h in holders)]
+    covered = set()
+    todo = []
+    for f in entries:
+        ps = tr.paths_of(repo, f, no_inline=NO_INLINE | {'on_evaluate_impl'})
+        covered |= {e.callee for p in ps for e in p.events if e.kind == 'enter'}
+        todo.append((f, ps))
+    for h in holders:
+        if h.qualname not in covered and h not in entries:
+            todo.append((h, tr.paths_of(repo, h, no_inline=NO_INLINE | {'on_evaluate_impl'})))
+    for fi, ps in todo:
+        seen = set()
+        for p in ps:
+            for e in p.events:
+                if e.kind == 'call' and e.attr in ('add_source', 'add_multiple_sources'):
+                    k = norm(e.node)
+                    if k in seen:
+                        continue
+                    seen.add(k)
+                    n_calls += 1
+                    sv = e.kw.get('safe')
+                    if sv is None:
+                        run.violation('C07.R6', fi, k, 'node class adds a source without passing safe=', node=e.node)
+                    elif '.ayns.safe' in sv.text:
+                        run.ok('C07.R6', tr.where(fi, e), k[:90], 'safe= derives from a node ayns.safe (%s)' % sv.text[:60])
+                    else:
+                        run.violation('C07.R6', fi, k, 'safe= argument (%s) does not derive from a node\'s ayns.safe' % sv.text[:80], node=e.node)
     if n_calls < 2:
         raise AnalysisError('C07.R6: expected add_source calls in IncludeNode and RecurseNode (got %d)' % n_calls)
 
 
 # ---- R7 -------------------------------------------------------------------------------------------
 def r7(repo, run):
-    # (1) metaclass adopt branch
+    # (1) metaclass adopt branch: inherited kwargs are assigned onto an already built child
     mc = repo.func('ConfigNodeMeta.__call__')
-    g = cfg_of(mc)
     n1 = 0
-    for n in g.stmt_nodes():
-        for c in n.calls():
-            if isinstance(c.func, ast.Name) and c.func.id == 'setattr' and len(c.args) == 3 and 'arg_name' in unparse(c.args[1]):
+    badp = None
+    for p in tr.paths_of(repo, mc):
+        for i, e in enumerate(p.events):
+            if e.kind == 'call' and e.callee == 'setattr' and len(e.args) == 3 and e.args[1].text.startswith("'_' +"):
                 n1 += 1
-                facts = facts_at(g, n)
-                ok = any(pol is False and 'implicit_safe' in t and 'is False' in t for t, pol in facts)
-                if ok:
-                    run.ok('C07.R7', (mc.file, c.lineno, mc.qualname), unparse(c), 'adoption keeps an implicit_safe that is already False')
-                else:
-                    run.violation('C07.R7', mc, unparse(c), 'inherited flags are assigned to an adopted child without sparing an _implicit_safe that is already False', node=c)
+                facts = e.facts
+                is_safe = [pol for t, pol in facts if "== 'implicit_safe'" in t]
+                spared = any(pol is False and 'is False' in t for t, pol in facts)
+                if not is_safe:
+                    badp = (p, e, 'the inherited kwargs are assigned without singling out implicit_safe')
+                elif any(is_safe) and not spared:
+                    badp = (p, e, 'implicit_safe is assigned although the child\'s own implicit_safe may already be False')
     if n1 < 1:
-        raise AnalysisError('C07.R7: adopt-branch setattr not found in ConfigNodeMeta.__call__')
+        raise AnalysisError('C07.R7: assignment of inherited kwargs (setattr(child, \'_\' + name, ...)) not found in ConfigNodeMeta.__call__')
+    if badp:
+        run.violation('C07.R7', mc, norm(badp[1].node), 'adoption of an already built child: %s [path: %s] - an unsafe child re-attached under a safe parent becomes safe' % (badp[2], tr.describe(badp[0])), node=badp[1].node)
+    else:
+        run.ok('C07.R7', mc, "setattr(child, '_' + name, kwargs[name]) on adoption", 'never reached for implicit_safe when the child is already implicitly unsafe (%d paths)' % n1)
     # (2) _propagate_implicit_values: table over (parent _safe None, parent implicit, child implicit)
     prop = repo.func('ComposedNode._propagate_implicit_values')
     bad = []
@@ -706,8 +630,9 @@ def r7(repo, run):
 
 
 def check(repo, run, tier):
-    r1(repo, run)
-    r1b(repo, run)
+    tr.reset()
+    covered = r1(repo, run)
+    r1b(repo, run, covered)
     r2(repo, run)
     r3(repo, run)
     r4(repo, run)
